@@ -60,7 +60,7 @@ def gen_tree(rng, ndim, levelmin, levelmax, nx, refine_p=0.45, max_octs=60):
 
 def gen_output(rng, ndim=None, ncpu=None, levelmin=None, levelmax=None, nboundary=None, exact=True,
                hydro_vars=None, with_grav=None, with_rt=None, with_part=None, with_sink=None,
-               owner_fn=None, max_octs=60, noutput=None, keyb=None):
+               owner_fn=None, max_octs=60, noutput=None, keyb=None, tree_levelmax=None):
     r = rng
     ndim = ndim or r.choice([1, 2, 3])
     ncpu = ncpu or r.randint(1, 5)
@@ -68,7 +68,8 @@ def gen_output(rng, ndim=None, ncpu=None, levelmin=None, levelmax=None, nboundar
     levelmin = min(levelmin or r.randint(1, levelmax), levelmax)
     nboundary = r.choice([0, 0, 1, 2]) if nboundary is None else nboundary
     nx = 3 if nboundary > 0 else 1
-    octs = gen_tree(r, ndim, levelmin, levelmax, nx, max_octs=max_octs)
+    # `tree_levelmax`: the deepest level that may actually be refined (the header's levelmax can be larger)
+    octs = gen_tree(r, ndim, levelmin, min(tree_levelmax or levelmax, levelmax), nx, max_octs=max_octs)
     twotondim = 2 ** ndim
     # ownership: active octs -> cpu domains 1..ncpu, boundary octs -> ncpu+1..ncpu+nboundary
     for o in octs:
